@@ -280,6 +280,39 @@ fn oracle_schedule() -> bool {
         let what = format!("tree #{}", ti);
         match res { Err(_) => r.fail(what, "panicked".into()), Ok(Some(d)) => r.fail(what, d), Ok(None) => {} }
     }
+    // entries that disappear while the traversal is under way: every remaining entry of the listing fails its metadata lookup, possibly after
+    // the lookup future has been Pending; the sync iterator yields one error per entry and then ends, and so must the stream, for every k
+    for k in 0..4usize {
+        for nfiles in [1usize, 3] {
+            r.case();
+            let res = catch_unwind(AssertUnwindSafe(|| rt.block_on(async {
+                let sroot: VfsPath = MemoryFS::new().into();
+                set_k(0);
+                let aroot: AsyncVfsPath = SlowFS { inner: AsyncMemoryFS::new() }.into();
+                for i in 0..=nfiles { let n = format!("f{}", i); sroot.join(&n).unwrap().create_file().unwrap(); aroot.join(&n).unwrap().create_file().await.unwrap(); }
+                // sync reference: first item, then everything is removed
+                let mut sw = sroot.walk_dir().unwrap();
+                let first = sw.next();
+                if !matches!(first, Some(Ok(_))) { return Some("sync walk did not start".to_string()); }
+                for i in 0..=nfiles { let _ = sroot.join(&format!("f{}", i)).unwrap().remove_file(); }
+                let sync_rest: Vec<bool> = sw.take(50).map(|e| e.is_ok()).collect();
+                set_k(k);
+                let mut aw = aroot.walk_dir().await.unwrap();
+                let first = aw.next().await;
+                if !matches!(first, Some(Ok(_))) { return Some("async walk did not start".to_string()); }
+                set_k(0);
+                for i in 0..=nfiles { let _ = aroot.join(&format!("f{}", i)).unwrap().remove_file().await; }
+                set_k(k);
+                let mut async_rest: Vec<bool> = vec![];
+                while let Some(e) = aw.next().await { async_rest.push(e.is_ok()); if async_rest.len() >= 50 { break; } }
+                let (se, ae) = (sync_rest.iter().filter(|b| !**b).count(), async_rest.iter().filter(|b| !**b).count());
+                if sync_rest.len() != async_rest.len() || se != ae { return Some(format!("after the entries were removed the sync walk yields {} more items ({} errors), the async stream {} ({} errors)", sync_rest.len(), se, async_rest.len(), ae)); }
+                None
+            })));
+            let what = format!("entries removed during the walk, {} files, k={}", nfiles + 1, k);
+            match res { Err(_) => r.fail(what, "panicked".into()), Ok(Some(d)) => r.fail(what, d), Ok(None) => {} }
+        }
+    }
     r.done()
 }
 // the delay knob is reached through a process-wide cell (the path type owns the filesystem object)
@@ -329,9 +362,9 @@ fn main() {
     std::panic::set_hook(Box::new(|_| {}));
     for a in args.iter().filter(|a| !a.starts_with("--")) {
         ok &= match a.as_str() {
-            "steps.memory" => oracle_steps("memory", if deep { 2 } else { 1 }),
-            "steps.altroot" => oracle_steps("altroot", if deep { 2 } else { 1 }),
-            "steps.overlay" => oracle_steps("overlay", if deep { 2 } else { 1 }),
+            "steps.memory" => oracle_steps("memory", if deep { 3 } else { 2 }),
+            "steps.altroot" => oracle_steps("altroot", 2),
+            "steps.overlay" => oracle_steps("overlay", if deep { 3 } else { 2 }),
             "steps.physical" => oracle_steps("physical", 1),
             "reader" => oracle_reader(if deep { 3 } else { 2 }),
             "schedule" => oracle_schedule(),
